@@ -184,6 +184,8 @@ struct ZSTD_DCtx_s
     void* legacyContext;
     U32 previousLegacyVersion;
     U32 legacyVersion;
+    unsigned long long legacyExpectedSize;   /* content size announced by the header of the legacy frame being streamed, or ZSTD_CONTENTSIZE_UNKNOWN */
+    unsigned long long legacyDecodedSize;    /* what that frame has regenerated so far */
 #endif
     U32 hostageByte;
     int noForwardProgress;
